@@ -59,4 +59,19 @@ META = {
                       "puts) are re-confirmed by scripted replay each run and excluded from the generators.",
         "level_note": "DB-level application (the path both leader replay and follower apply use).",
     },
+    "C16": {
+        "engine": "kvx", "technique": "model-based property testing with a commit gate for subscriber timing",
+        "design_ref": "DESIGN.md 4.2, 5 C16",
+        "level_text": "Generated sequence-put histories with exact recomputation of every generated key and subscriber checks at "
+                      "quiescence; one listed finding (subscriber attaching between key generation and commit) re-confirmed "
+                      "by scripted schedule each run.",
+        "level_note": "DB level; liveness only in the bounded form 'at quiescence'.",
+    },
+    "C17": {
+        "engine": "kvx", "technique": "model-based property testing (net-effect oracle over stored notification batches)",
+        "design_ref": "DESIGN.md 4.2, 5 C17",
+        "level_text": "Generated write histories; each stored batch compared with the model's net effect; resumable reads and "
+                      "retention-bounded trimming under an injected clock.",
+        "level_note": "DB level in this check; one listed finding (key entry replaced by a range entry with the same start key).",
+    },
 }
